@@ -37,7 +37,7 @@ _kinds = ["event", "waitlist", "holders", "objprio", "default"]
 PROPS["C02"] = {
     "engines": ENG,
     "jobs": (
-        [J(f"hh-{k}", "hhfuzz", "rel", i, 2000, 60000) for i, k in enumerate(_kinds)]
+        [J(f"hh-{k}", "hhfuzz", "rel", i, 2000, 300000, chunk=2500) for i, k in enumerate(_kinds)]
         + [J(f"hh-churn-{k}", "hhfuzz", "rel", 10 + i, 300, 6000) for i, k in enumerate(_kinds)]
         + [J(f"hh-long-{k}", "hhfuzz", "rel", 20 + i, 20, 2000, thorough_only=False) for i, k in enumerate(_kinds)]
         + [J(f"hh-asan-{k}", "hhfuzz", "asan", i, 400, 6000) for i, k in enumerate(_kinds)]
@@ -60,7 +60,7 @@ PROPS["C02"] = {
 PROPS["C19"] = {
     "engines": ENG,
     "jobs": [
-        J("exp-rel", "expcheck", "rel", 0, 40, 2000, timeout=300, chunk=4),
+        J("exp-rel", "expcheck", "rel", 0, 40, 20000, timeout=300, chunk=4),
         J("exp-tsan", "expcheck", "tsan", 1, 12, 300, timeout=600, chunk=2),
     ],
     "rule": ("one case = one experiment: trial count in {1,2,15,16,17,64,200,1000}, element size in {8,24,72,4096,9,13,100}, duration mix "
@@ -103,7 +103,7 @@ PROPS["C15"] = {
     "engines": ENG,
     "jobs": [
         J("rng-raw-reference", "rngdet", "rel", 0, 40, 2000),
-        J("rng-pollution", "rngdet", "rel", 1, 2000, 200000),
+        J("rng-pollution", "rngdet", "rel", 1, 2000, 600000, chunk=2500),
         J("rng-threads-tsan", "rngdet", "tsan", 2, 150, 5000, timeout=120),
     ],
     "rule": ("(i) raw 64-bit stream of 50 seeds per case (corner seeds 0,1,2^63,2^64-1,DUMMY + random) x 256 outputs against an independent "
@@ -139,8 +139,8 @@ PROPS["C16"] = {
 PROPS["C01"] = {
     "engines": ENG,
     "jobs": [
-        J("ev-mixed", "evfuzz", "rel", 0, 3000, 300000),
-        J("ev-ties", "evfuzz", "rel", 1, 3000, 300000),
+        J("ev-mixed", "evfuzz", "rel", 0, 3000, 1500000, chunk=2500),
+        J("ev-ties", "evfuzz", "rel", 1, 3000, 1500000, chunk=2500),
         J("ev-large", "evfuzz", "rel", 2, 60, 4000, timeout=120),
         J("ev-mixed-asan", "evfuzz", "asan", 0, 500, 20000),
         J("ev-ties-asan", "evfuzz", "asan", 1, 500, 20000),
@@ -164,8 +164,8 @@ PROPS["C01"] = {
 PROPS["C03"] = {
     "engines": ENG,
     "jobs": [
-        J("coro-api", "corofuzz", "rel", 0, 2000, 200000),
-        J("coro-mechanism", "corofuzz", "rel", 1, 2000, 200000),
+        J("coro-api", "corofuzz", "rel", 0, 2000, 1000000, chunk=2500),
+        J("coro-mechanism", "corofuzz", "rel", 1, 2000, 1000000, chunk=2500),
         J("coro-api-asan", "corofuzz", "asan", 0, 500, 20000),
     ],
     "rule": ("one case = 2-24 coroutines driven by a random scheduler for 30-3000 switches: start, resume, symmetric transfer, yield, "
@@ -210,7 +210,7 @@ PROPS["C18"] = {
         J("order-asan", "statcheck", "asan", 2, 1500, 60000, timeout=120),
         J("hist-asan", "statcheck", "asan", 3, 1000, 40000),
         J("acf-asan", "statcheck", "asan", 4, 600, 20000),
-        J("order-rel", "statcheck", "rel", 2, 2000, 200000, timeout=120),
+        J("order-rel", "statcheck", "rel", 2, 2000, 600000, timeout=120, chunk=2500),
         J("hist-rel", "statcheck", "rel", 3, 1500, 100000),
         J("acf-rel", "statcheck", "rel", 4, 800, 50000),
     ],
